@@ -111,7 +111,7 @@ TraceReadStream ==
     /\ Line.k >= 0 /\ Line.k <= Line.p
     /\ Line.runs = OneRun(cur, cons, Line.k)
     /\ Line.eof => (cons + Line.k = BodyLen(cur) \/ Denied(cur))   \* EOF is not reported early (a refused body is never read)
-    /\ (cons = BodyLen(cur) /\ Line.p > 0) => Line.eof   \* nor late: a read at the end reports EOF
+    /\ (cons = BodyLen(cur) /\ Line.p > 0) => (Line.eof \/ reqs[cur].partial)   \* nor late: a read at the end reports EOF (or fails when the peer cut the message short)
     /\ Denied(cur) => Line.k = 0
     /\ ~eofSeen \/ Line.k = 0
     /\ Line.rd = -1 \/ (rd <= Line.rd /\ (Line.rd <= reqs[cur].end \/ Over(cur)) /\ Line.rd <= sent)   \* never consumes beyond the body
@@ -121,6 +121,12 @@ TraceReadStream ==
     /\ eofSeen' = (eofSeen \/ Line.eof)
     /\ Consume
     /\ UNCHANGED <<reqs, cfg, sent, eof, phase, cur, interim, hlog, out, topen, pairReq, tlog, script, active, readDone, unread, behs, level, resps>>
+
+\* the chunked body writer behaves as an io.Writer: every Write reports all its bytes written, no error (C04)
+TraceWrote ==
+    /\ active /\ HasLine /\ Line.ev = "Wrote" /\ phase = "handle"
+    /\ Line.n = Line.len /\ ~Line.err
+    /\ Consume /\ UNCHANGED <<vars, script, active, readDone, eofSeen, unread, behs, level, resps>>
 
 TraceHandleEnd ==
     /\ active /\ HasLine /\ Line.ev = "HandleEnd"
@@ -239,7 +245,7 @@ TraceEnd == /\ active /\ HasLine /\ Line.ev = "End" /\ phase = "closed"
 
 Normal == TraceCase \/ TraceDeliver \/ TraceEof \/ TraceInterim \/ TraceHandle \/ TraceReadBuffered \/ TraceReadStream
           \/ TraceHandleEnd \/ TraceRespond \/ TraceClosed \/ TraceContinue \/ TraceEnd
-          \/ TraceReject \/ TraceWriteFail \/ TraceTStart \/ TraceTFinish
+          \/ TraceReject \/ TraceWriteFail \/ TraceTStart \/ TraceTFinish \/ TraceWrote
 
 NextCase(k) == IF \E j \in k + 1 .. Len(Trace) : Trace[j].ev = "Case"
                THEN CHOOSE j \in k + 1 .. Len(Trace) : Trace[j].ev = "Case" /\ \A i \in k + 1 .. j - 1 : Trace[i].ev # "Case"
